@@ -317,6 +317,24 @@ Proof.
     rewrite (H r c i Hin). reflexivity.
 Qed.
 
+(* 10. nothing is lost *)
+Lemma o_eventual_sound : forall iv sc ob, o_eventual iv sc ob = true <-> s_eventual iv sc ob.
+Proof.
+  intros iv sc ob. unfold o_eventual, s_eventual.
+  destruct (eventual_active sc ob) eqn:Hact.
+  2:{ split; [intros _ H; discriminate H|reflexivity]. }
+  rewrite forallb_forall. split.
+  - intros H _ e Hin Hc y q Hy Hq b Hb Hob. specialize (H e Hin).
+    rewrite Hc, Hy, Hq in H. rewrite forallb_forall in H. specialize (H b Hb).
+    rewrite Hob in H. apply memZ_In. exact H.
+  - intros H e Hin.
+    destruct (cancel_step sc (fst e)) as [x|] eqn:Hc; [reflexivity|].
+    destruct (reader_start sc e) as [y|] eqn:Hy; [|reflexivity].
+    destruct (done_step ob (fst (snd e))) as [q|] eqn:Hq; [|reflexivity].
+    apply forallb_forall. intros b Hb. destruct (owed iv sc q b) eqn:Hob; [|reflexivity].
+    apply memZ_In. exact (H eq_refl e Hin Hc y q Hy Hq b Hb Hob).
+Qed.
+
 (* ---------------------------------------------------------------------------------------- *)
 (* the oracle decides the spec *)
 
@@ -325,14 +343,14 @@ Proof.
   intros iv sc ob. unfold oracle, spec. rewrite !andb_true_iff.
   rewrite o_valid_sound, o_once_sound, o_not_early_sound, o_suppress_sound, o_due_order_sound,
     o_same_order_sound, o_no_hole_sound, o_complete_sound, o_close_sound, o_depart_sound,
-    o_at_return_sound.
+    o_at_return_sound, o_eventual_sound.
   split.
-  - intros [[[[[[[[[[[H0 H1] H2] H3] H4] H5] H6] H7] H8] H9] H10] H11].
+  - intros [[[[[[[[[[[[H0 H1] H2] H3] H4] H5] H6] H7] H8] H9] H10] H11] H12].
     pose proof (proj1 (o_no_wedge_sound sc ob H0) H7) as H7'.
-    exact (conj H0 (conj H1 (conj H2 (conj H3 (conj H4 (conj H5 (conj H6 (conj H7' (conj H8 (conj H9 (conj H10 H11))))))))))).
-  - intros [H0 [H1 [H2 [H3 [H4 [H5 [H6 [H7 [H8 [H9 [H10 H11]]]]]]]]]]].
+    exact (conj H0 (conj H1 (conj H2 (conj H3 (conj H4 (conj H5 (conj H6 (conj H7' (conj H8 (conj H9 (conj H10 (conj H11 H12)))))))))))).
+  - intros [H0 [H1 [H2 [H3 [H4 [H5 [H6 [H7 [H8 [H9 [H10 [H11 H12]]]]]]]]]]]].
     pose proof (proj2 (o_no_wedge_sound sc ob H0) H7) as H7'.
-    exact (conj (conj (conj (conj (conj (conj (conj (conj (conj (conj (conj H0 H1) H2) H3) H4) H5) H6) H7') H8) H9) H10) H11).
+    exact (conj (conj (conj (conj (conj (conj (conj (conj (conj (conj (conj (conj H0 H1) H2) H3) H4) H5) H6) H7') H8) H9) H10) H11) H12).
 Qed.
 
 (* Non-vacuity: both sides hold on a concrete run (one prompt subscriber, one Batch, the clock
